@@ -43,7 +43,8 @@ type Case struct {
 	HasCond  bool        `json:"has_cond"`           // Params.Condition set
 	CondDflt string      `json:"cond_dflt,omitempty"` // its answer for names not in Conds
 	Conds    []CondEntry `json:"conds,omitempty"`
-	Kind     string      `json:"kind"` // constructive | wild | corpus | c16
+	NoMain   bool        `json:"no_main,omitempty"` // the helper is not a registered command (cmd/testscript)
+	Kind     string      `json:"kind"`              // constructive | wild | corpus | cli | c16
 	Note     string      `json:"note,omitempty"`
 }
 
